@@ -380,7 +380,10 @@ class Interp:
         r = self.eval_place_ref(fr, place)
         if isinstance(r, SliceRef):
             return r
-        v = r.load()
+        try:
+            v = r.load()
+        except AttributeError:
+            raise Unsupported(f"read of an uninitialised place: _{place.local} {place.proj!r} in {fr.body.name[-60:]}")
         return v
 
     def write_place(self, fr, place, val):
